@@ -174,6 +174,14 @@ class BinaryFileWriter(BaseIoWriter):
         """Write type"""
         self.write(LANG_TYPES[typ])
 
+    def write_block_type(self, typ):
+        """Write block type: empty, a value type or a type index"""
+        if isinstance(typ, components.Ref):
+            # A type index is written as a signed 33 bit integer.
+            self.write(signed_leb128_encode(typ.index))
+        else:
+            self.write_type(typ)
+
     def write_ref(self, ref):
         assert isinstance(ref, components.Ref)
         int_ref = ref.index
@@ -370,7 +378,7 @@ class BinaryFileWriter(BaseIoWriter):
 
 # This is a list of functions to write argument of different types:
 wfm = {
-    ArgType.TYPE: lambda writer, arg: writer.write_type(arg),
+    ArgType.TYPE: lambda writer, arg: writer.write_block_type(arg),
     ArgType.U8: lambda writer, arg: writer.write(bytes([arg])),
     ArgType.U32: lambda writer, arg: writer.write_vu32(arg),
     ArgType.LABELIDX: lambda writer, arg: writer.write_ref(arg),
